@@ -171,6 +171,13 @@ CHECKS["C18"] = {
     "note": "Mutually containing blocks across templates (no finite flattening) only need to end in a Liquid error. Duplicate blocks in a template rendered on its own are not asserted.",
 }
 
+CHECKS["C22"] = {
+    "technique": "validity-oracle fuzzing of template names against a sandbox directory tree with decoys and symlinks",
+    "text": "Every process builds a throw-away tree (search directories with uniquely labelled files, decoys outside, symlinks out of / into the tree and to a prefix-sharing sibling, a throw-away package) and requests names assembled from '..', '.', absolute prefixes, NUL/control characters, unicode, 300-character components and link names from 9 loader configurations (FileSystemLoader variants, CachingFileSystemLoader, PackageLoader), sync and async. A result must be TemplateNotFoundError or a template whose path is lexically - and with reject_symlinks really - inside a search directory and whose text is that file's content.",
+    "design_ref": "DESIGN.md §4 C22",
+    "note": "POSIX file system semantics of this sandbox (tmpfs/ext4); Windows drive/UNC names are only fed as plain strings.",
+}
+
 NOT_APPLICABLE = [
     {"property_id": p, "reason": "check not built yet in this round (work in progress; see DESIGN.md §4 for the planned oracle)"}
     for p in ALL
